@@ -439,9 +439,10 @@ func (x *Exec) applyContract(fr *Frame, ci *calleeInfo, c *ssa.CallCommon, args 
 	pre := st.clone()
 	env := &Env{x: x, vars: map[string]*Sym{}, st: pre, old: pre, ctrPre: pre.ctr}
 	if len(ct.Lets) > 0 {
-		env.lets = map[string]*Node{}
+		env.lets = map[string]*LetDef{}
 		for _, l := range ct.Lets {
-			env.lets[l.Name] = l.Expr
+			l := l
+			env.lets[l.Name] = &l
 		}
 	}
 	for i, n := range names {
@@ -642,12 +643,12 @@ func (x *Exec) doAppend(fr *Frame, c *ssa.CallCommon, args []*Sym, reach *Term, 
 			// common case: append(s, a, b): chain of stores on the old contents
 			nc = oldc
 			for i := int64(0); i < e.L[2].Lit.Int64(); i++ {
-				nc = mkStore(nc, bvBin("bvadd", s.L[2], mkBVu(uint64(i), 64)), mkSelect(ec, bvBin("bvadd", e.L[1], mkBVu(uint64(i), 64))))
+				nc = mkStore(nc, bvBin("bvadd", s.L[2], mkBVu(uint64(i), 64)), mkSelect(ec, elemIndex(e.L[1], mkBVu(uint64(i), 64))))
 			}
 		} else {
 			nc = x.vc.fresh("app."+f.Name, cs)
-			x.vc.assume(tTrue, mkRaw(fmt.Sprintf("(forall ((i!a (_ BitVec 64))) (! (=> (and (bvsle (_ bv0 64) i!a) (bvslt i!a %s)) (= (select %s i!a) (select %s (bvadd %s i!a)))) :pattern ((select %s i!a))))", s.L[2].S, nc.S, oldc.S, s.L[1].S, nc.S), SBool))
-			x.vc.assume(tTrue, mkRaw(fmt.Sprintf("(forall ((i!a (_ BitVec 64))) (! (=> (and (bvsle %s i!a) (bvslt i!a %s)) (= (select %s i!a) (select %s (bvadd %s (bvsub i!a %s))))) :pattern ((select %s i!a))))", s.L[2].S, nl.S, nc.S, ec.S, e.L[1].S, s.L[2].S, nc.S), SBool))
+			x.vc.assume(tTrue, mkRaw(fmt.Sprintf("(forall ((i!a (_ BitVec 64))) (! (=> (and (bvsle (_ bv0 64) i!a) (bvslt i!a %s)) (= (select %s i!a) (select %s %s))) :pattern ((select %s i!a))))", s.L[2].S, nc.S, oldc.S, elemIndex(s.L[1], mkRaw("i!a", bvSort(64))).S, nc.S), SBool))
+			x.vc.assume(tTrue, mkRaw(fmt.Sprintf("(forall ((i!a (_ BitVec 64))) (! (=> (and (bvsle %s i!a) (bvslt i!a %s)) (= (select %s i!a) (select %s %s))) :pattern ((select %s i!a))))", s.L[2].S, nl.S, nc.S, ec.S, elemIndex(e.L[1], mkRaw("(bvsub i!a "+s.L[2].S+")", bvSort(64))).S, nc.S), SBool))
 		}
 		x.hp.heapSet(st, f, mkStore(x.hp.heapGet(st, f), r, nc))
 	}
